@@ -31,7 +31,43 @@ RULE = ("graph stream (exhaustive): every DAG on <=4 labelled nodes (quick and t
         "from still equals its snapshot (edges, latents, every CPD by named assignment, check_model) and still "
         "answers an interventional query as the model does.  A case is non-trivial when "
         "the graph has an edge and (bn) some query used a non-empty adjustment set / (graph) some pair has a "
-        "back-door path; distinct = distinct canonical case")
+        "back-door path; distinct = distinct canonical case.  "
+        "GENERALISATION CLASSES: A sessions - 'sess' (do() results edited in place through do(inplace), CPD "
+        "marginalize/reduce/normalize/value assignment, add_cpds replacement, remove_node: the source network keeps "
+        "its snapshot), 'gsess' (ONE network object and engine: remove_edge, add_edge, remove_edges_from, "
+        "add_edges_from, remove_node, add_node(+latent), clear-and-rebuild between rounds of every graph test / "
+        "enumeration / minimal set / proper back-door graph, oracle = model on the CURRENT graph; the engine is "
+        "rebuilt only after node-set edits because CausalInference records the observed variables at construction), "
+        "'qsess' (ONE network and ONE CausalInference object: add_cpds replacement, remove_edge / add_edge with a "
+        "replacement CPD, do(inplace=True) between queries); B argument purity - query's variables list / do dict / "
+        "adjustment set / evidence dict, do()'s node list, the X, Y, Z lists of the validity tests, simulate's do "
+        "dict are compared with deep snapshots, refused calls included, and the same argument objects are reused "
+        "for a second call; C result independence - the first query result is wrecked (values, scope) and the "
+        "query repeated with the same arguments, get_minimal_adjustment_set's set and get_proper_backdoor_graph's "
+        "graph are edited and asked again, do() never returns self, CPDs are built from lists, C-contiguous float64 "
+        "ndarrays, a reused buffer and another CPD's get_values() which are overwritten afterwards; D pandas - not "
+        "applicable (no frame is an input; simulate's frame is read by column label only); E names - pool with "
+        "substrings (x1/x10/x11, G/G2), keywords (do, evidence, variables, None), the empty string, '__X' (prefix of "
+        "the virtual-evidence child), int / tuple / mixed unsortable names and ints >= 8 (set order not "
+        "increasing) on do()/query; the graph-test API accepts strings only (pgmpy's set helper); F state names - "
+        "ints, reversed ints, 1-based ints, booleans in both orders, strings, the same names across variables "
+        "(disagreeing state lists between CPDs are C05/C15's rejection); G sizes - single-node and edgeless "
+        "networks, cardinality-1 variables, do([]), do(node) / tuple / set / duplicate node, do=None vs {}, empty "
+        "adjustment set vs None (an empty set must NOT fall back to the parents), node/state 0; a factor over >= 9 "
+        "variables would need >= 9 parents of one do-variable (512+ inner queries per call): the non-monotone "
+        "set-order effect it stands for is produced with ints >= 8 as node names instead; H magnitudes - CPD "
+        "entries down to 2^-50 and joint masses down to ~1e-60 with exact-float inputs, every query value compared "
+        "purely RELATIVELY (1e-9) with the model's exact rational; exact zeros: zero-probability conditioning is "
+        "outside the property (tagged, skipped), other zeros must be exact; I backends - numpy and torch (bn and "
+        "qsess cases under config.set_backend('torch')); J variants - inference_algo ve/bp, show_progress, "
+        "evidence None/{}, adjustment set as set/list, inplace for do() and get_proper_backdoor_graph, Z as "
+        "list/tuple/set/frozenset/single name/default for the tests, simulate(do=, include_latents=, "
+        "virtual_intervention=); an Inference INSTANCE as inference_algo raises TypeError on the unchanged tree "
+        "(reported, not exercised: the property names the two back-ends); K rejected calls - a LATER unknown node "
+        "in do() (out of place and in place), query variables, get_proper_backdoor_graph(inplace=True): refused and "
+        "the network equals its snapshot; latent X/Y refused by the enumerations; L orders - insertion order of "
+        "nodes, edges and CPDs shuffled per case, add_edges_from vs add_edge, CPD parent axis order, do-dict order, "
+        "hash seeds, set orders as model parameters; M budget - tools/check.py")
 TRUSTED_BASE = ["inner VariableElimination/BeliefPropagation posteriors are modelled by their specification "
                 "(conditional of the CPD-product joint; subject of C01/C02)",
                 "d-connection oracle = C08 model (C08_is_dconnected_iff)",
